@@ -123,6 +123,8 @@ impl<VM: VMBinding, P: ConcurrentPlan<VM = VM> + PlanTraceObject<VM>, const KIND
         _target: Option<ObjectReference>,
     ) {
         self.object_probable_write_slow(src);
+        #[cfg(feature = "mmtk_verif")]
+        crate::verif::gc::yp(crate::verif::gc::Site::SatbBarrier);
         self.log_object(src);
     }
 
